@@ -17,6 +17,7 @@ import GeoProofs.Lemmas.C10Mono
 import GeoProofs.Lemmas.MONOInit
 import GeoProofs.Lemmas.MONOSweepC
 import GeoProofs.Lemmas.MONOFuelD
+import GeoProofs.Lemmas.MONOAtPoint
 import GeoProofs.Props.C19
 import Mathlib.Tactic.NormNum
 
@@ -404,6 +405,34 @@ theorem monotone_fuel_irrelevant (ps : List Poly) (F : Nat) (hF : fuelFor (initS
 
 example : (MonoBuild.buildLoop 100000 100000 (MonoBuild.initState [lShape])).map (·.outputs) =
     MonoBuild.monotoneSubdivision [lShape] := monotone_fuel_irrelevant _ _ (by decide +kernel)
+
+open Geo.MonoBuild Geo.Proofs.MONO in
+/-- [T] the contract of `SimpleSweep::next_point` that `process_next_pt` relies on, for all inputs: in every state of a
+run (the sweep invariant `SInv` holds initially and after every `process_next_pt`), when `next_point`, called with empty
+`incoming` / `outgoing`, returns the point `pt`, every segment it handed over as ending has its right end at `pt`
+(so `fix_top` sets the tip of its chain to `pt`) and every segment handed over as starting has its left end at `pt`
+(so the chains started by `from_segment_pair(pt, ..)` are increasing). Splits made while the events of `pt` are handled
+never cut a segment that ended at `pt`, and never move a left end. -/
+theorem monotone_next_point_contract (ps : List Poly) :
+    SInv (initState ps) ∧
+    (∀ (fuel : Nat) (st st' : St), SInv st → processNextPt fuel st = some (st', true) → SInv st') ∧
+    (∀ (fuel : Nat) (st st' : St) (pt : Pt), SInv st → st.incoming = [] → st.outgoing = [] →
+      nextPoint fuel st = some (st', some pt) →
+      (∀ i ∈ st'.incoming, (st'.lineOf i).map LoP.right = some pt) ∧
+      (∀ o ∈ st'.outgoing, (st'.lineOf o).map LoP.left = some pt)) := by
+  refine ⟨initState_sinv ps, ?_, ?_⟩
+  · intro fuel st st' hi h
+    obtain ⟨_, _, i1, _⟩ := processNextPt_sinv hi h
+    exact i1
+  · intro fuel st st' pt hi h1 h2 h
+    have io := nextPoint_io hi ⟨h1, h2⟩ h
+    refine ⟨?_, ?_⟩
+    · intro i hi'
+      obtain ⟨l, hl, e⟩ := io.inc i hi'
+      rw [hl]; simp [e]
+    · intro o ho
+      obtain ⟨l, hl, e⟩ := io.out o ho
+      rw [hl]; simp [e]
 
 /-- the pieces of the model as closed rings (`MonoPoly::into_polygon`) -/
 def monoRings (ps : List Poly) : List (List Pt) :=
